@@ -435,6 +435,12 @@ def cluster_check(args, pid, judge_queries, topos, quick_n, thorough_n, text, no
             V.notes.append("%s: the leader's bookkeeping departs from the hand-over rules of spec/TraceFollow.tla at %s (saved %s)"
                            % (scn_, json.dumps(info["event"])[:200], rp))
         print("[%s] %d follow traces (%d lines) validated, %d rejected" % (pid, fscn, flines, len(ffails)), flush=True)
+        if pid == "C12" and not args.replay:
+            import wire_checks
+            rstats = {}
+            wire_checks.rpc_follow_part(pid, V, rng, work, quick, rstats)
+            cov.update(rstats)
+            print("[%s] rpc follow part: %s" % (pid, rstats), flush=True)
         cov.update({"replayed_behaviours": len(scenarios), "fault_steps": faults,
                     "settle_points_checked": stats["settles"], "converged_states_checked": stats["converged_checked"],
                     "cluster_queries_compared": stats["queries"], "cluster_queries_with_rows": stats["queries_with_rows"],
